@@ -216,9 +216,11 @@ class MVCCAdapterInstance(Base):
 
     def tpc_finish(self, transaction, func=lambda tid: None):
         modified = self._modified
-        self._modified = None
 
         def invalidate_finish(tid):
+            # Only now has the storage accepted the call: a call with
+            # another transaction must be rejected without effect.
+            self._modified = None
             self._base._invalidate_finish(tid, modified, self)
             self._ltid = tid
             func(tid)
